@@ -46,16 +46,20 @@ Record vobs := {
   o_vnew : list vrow;                     (* version rows appended by this step *)
   o_vfull : option (list vrow);           (* Some t: the table is t (not an append) *)
   o_api : list (Z * list Z);              (* per created master: ids of list(master.versions) *)
-  o_api_rows_ok : bool
+  o_api_rows_ok : bool;
+  o_decoy : option (list (Z * kwargs) * list vrow)   (* the class's own database, when it changed (foreign modes) *)
 }.
-Definition case := list vobs.
+(* foreign = the masters live on a connection that is not the class's own
+   (per-call connection= or a Transaction; the class's connection points at
+   the decoy database) *)
+Record case := { c_foreign : bool; c_steps : list vobs }.
 
-Fixpoint agree_from (st : vstate) (seen : list vrow) (steps : list vobs) : bool :=
+Fixpoint agree_from (foreign : bool) (ws : wstate) (seen : list vrow) (steps : list vobs) : bool :=
   match steps with
   | [] => true
   | o :: r =>
-      let x := vstep st (o_op o) in
-      let st' := fst x in
+      let x := wstep foreign ws (o_op o) in
+      let st' := w_main (fst x) in
       let seen' := match o_vfull o with Some t => t | None => seen ++ o_vnew o end in
       voutcome_eqb (snd x) (o_out o)
       && tbl_eqb (m_tbl st') (o_masters o)
@@ -63,6 +67,11 @@ Fixpoint agree_from (st : vstate) (seen : list vrow) (steps : list vobs) : bool 
       && o_api_rows_ok o
       && list_eqb (fun p q => Z.eqb (fst p) (fst q) && list_eqb Z.eqb (snd p) (snd q))
            (map (fun p => (fst p, map v_id (versions_of (fst p) st'))) (m_tbl st')) (o_api o)
-      && agree_from st' seen' r
+      && match o_decoy o with
+         | Some d => tbl_eqb (m_tbl (w_decoy (fst x))) (fst d) && list_eqb vrow_eqb (v_tbl (w_decoy (fst x))) (snd d)
+         | None => tbl_eqb (m_tbl (w_decoy (fst x))) (m_tbl (w_decoy ws))
+                   && Z.eqb (v_next (w_decoy (fst x))) (v_next (w_decoy ws))
+         end
+      && agree_from foreign (fst x) seen' r
   end.
-Definition agree (c : case) : bool := agree_from vinit [] c.
+Definition agree (c : case) : bool := agree_from (c_foreign c) winit [] (c_steps c).
